@@ -32,8 +32,13 @@ TwinFailsOf(e, x, twins, surr, row) ==
            THEN {"OriginalStates|twin_surrogates" \o row}
            ELSE IF ~TwinWalk(tw, n, [j \in 1..Len(surr) |-> IdxOf(x, surr[j])])
                 THEN {"TwinWalk|twin_surrogates" \o row} ELSE {})
+SortedRows(tw) == [k \in 1..Len(tw) |-> SortSeq(tw[k], LAMBDA a, b : a < b)]
 TwinFails(e) == TwinFailsOf(e, e.x, e.obs.twins, e.obs.surr, "")
                 \cup TwinFailsOf(e, e.x2, e.obs.twins2, e.obs.surr2, "[row 1]")
+                \* RecurrencePlot: same twins (as sets), same walk; result shape (surrogates, states, dimension)
+                \cup TwinFailsOf(e, e.x, e.obs.rp_twins, e.obs.rp_surr, "[RecurrencePlot]")
+                \cup (IF e.obs.rp_shape # <<2, Len(Embed(e.x, e.dim, 1)), e.dim>>
+                      THEN {"Shape|RecurrencePlot.twin_surrogates"} ELSE {})
 Verdict(e) ==
   LET tags == e.blk \o (IF e.blk = "spec" THEN (IF ZeroAmplitude(e) THEN ",zero_amplitude" ELSE "") \o ",n" \o ToString(e.n) \o ",k" \o ToString(e.k)
                         ELSE ",dim" \o ToString(e.dim) \o ",md" \o ToString(e.md)) IN
